@@ -60,7 +60,8 @@ PathFocus == Focus = "qmdpath"
 (* embedded as the body of a lambda (a second dataset node, not on the source chain, possibly shallower than the root); *)
 (* executions must still go to the executor of the dataset at the root of the source chain                              *)
 CrossFocus == Focus = "cross"
-QVals   == IF PathFocus THEN {1, 2} ELSE IF ChainOnly THEN {1, 3} ELSE Vals
+(* (4 is rendered as the value None: a key SET to None looks up as None, like a key never set, but it hides older values) *)
+QVals   == IF PathFocus THEN {1, 2, 4} ELSE IF ChainOnly THEN {1, 3} ELSE Vals
 Ovrs    == IF ChainOnly THEN {FALSE} ELSE BOOLEAN
 Newest(s) == ~ChainOnly \/ s = Len(streams)
 Cols    == Lst(<<StrC("c")>>)
